@@ -289,9 +289,9 @@ func Resolve(prop string, cases []*MCase) error {
 type session struct {
 	errb bytes.Buffer
 	cmd  *exec.Cmd
-	in  io.WriteCloser
-	out *bufio.Reader
-	n   int
+	in   io.WriteCloser
+	out  *bufio.Reader
+	n    int
 }
 
 func newSession(root, prop string) (*session, error) {
